@@ -6,6 +6,7 @@ import re
 import subprocess
 from . import common as C
 
+ALL_IDS = ("C01", "C02", "C03", "C04", "C05", "C06", "C18")
 OCAML = ["sup"]
 GO = ["sup"]
 MODEL_FILES = ["lib/LTS.v", "model/Supervisor.v", "model/SupAccept.v", "model/SupProps.v"]
@@ -18,7 +19,7 @@ OWNER = {
     "ReloadCall": {"C05"}, "ReloadRet": {"C05"},
     "SubRecv": {"C06"}, "SubClosed": {"C06", "C18"}, "Subscribe": {"C06"}, "SubCancel": {"C06"},
     "RunRet": {"C01", "C04"},
-    "Crash": {"C02"}, "Watchdog": {"C02"},
+    "Crash": set(ALL_IDS), "Watchdog": {"C02"},
 }
 SNAPDIAG_OWNER = {"1": {"C02", "C05", "C06", "C18"}, "2": {"C02"}, "3": {"C06"}, "4": {"C02", "C04"}, "5": {"C18"}}
 PROP_OF_MONITOR = {"C01.order": "C01", "C01.exactly_once": "C01", "C01.not_before": "C01", "C03.gate": "C03", "C03.pending": "C03", "C01.cancel_after": "C01", "C03.once": "C03", "C04.nil": "C04",
